@@ -742,7 +742,10 @@ def calls_in(node: ast.AST) -> list[ast.Call]:
     return [n for n in walk_no_nested(node) if isinstance(n, ast.Call)]
 
 
-def call_name(c: ast.Call) -> str:
+def call_name(c: ast.AST) -> str:
+    """name of the function or method a Call invokes; "" for anything else"""
+    if not isinstance(c, ast.Call):
+        return ""
     f = c.func
     if isinstance(f, ast.Name):
         return f.id
